@@ -6,5 +6,7 @@ CONSTANTS
   AddrKinds <- AddrQuick
   MaxRoutes = 2
   Emit = TRUE
+  HPackets <- HPacketsDef
+  MaxDisp = 0
 INVARIANTS C06_AtMostOneHandler C06_ReplyOnlyIfUnhandledRequest C06_EmptyRouteCatchesAll C06_LaterRoutesIgnored C06_NormalIsMessageDefault EmitInv
 CHECK_DEADLOCK FALSE
